@@ -8,6 +8,7 @@ import GdModel.Driver.Util
 import GdModel.Driver.Conv
 import GdModel.Field.Basic
 import GdModel.Field.Extents
+import GdModel.Codec.Flat
 import GdModel.Bytes.Order
 namespace GdModel.Driver
 open GdModel.Num GdModel.Field GdModel.Bytes
@@ -331,6 +332,8 @@ def handleGet (spec : Bool) (db : DB) (args : List String) : String :=
 def handleEof (spec : Bool) (db : DB) (args : List String) : String :=
   match args with
   | [code] =>
+    if let some (.raw ty spf foff _ bytes) := db.lookup code then
+      s!"eof {spf * foff + bytes.length / ty.size} e=0" else
     match resolve db recurseLimit code with
     | .error .badCode => "eof -3 e=-3"
     | .error .recurse => "eof -10 e=-10"
@@ -367,5 +370,115 @@ def handleSpf (db : DB) (args : List String) : String :=
     | .error .recurse => "spf 0 e=-10"
     | .error (.unsupported w) => "unsupported " ++ w
   | _ => "bad-op"
+
+
+/-! ### writes -/
+
+/-- samples per frame by following first inputs only (works for complex RAW too) -/
+partial def spfOf (db : DB) (fuel : Nat) (code : String) : Except RErr Nat :=
+  match fuel with
+  | 0 => .error .recurse
+  | fuel + 1 =>
+    let (base, _) := splitRepr db code
+    if base == "INDEX" then .ok 1 else
+    match db.lookup base with
+    | none => .error .badCode
+    | some (.raw _ spf ..) => .ok spf
+    | some (.lincom ((i0, _, _) :: _)) => spfOf db fuel i0
+    | some (.lincom []) => .error (.unsupported "lincom arity")
+    | some (.linterp i ..) | some (.bit i ..) | some (.recip i ..) | some (.phase i ..)
+    | some (.polynom i ..) | some (.window i ..) | some (.mplex i ..) | some (.multiply i ..)
+    | some (.divide i ..) | some (.indir i ..) => spfOf db fuel i
+    | some (.carray ..) => .error (.unsupported "scalar")
+
+def parseSamples (s : String) : List Sample :=
+  if s == "-" then [] else
+  (s.splitOn ",").filterMap fun tok =>
+    match tok.splitOn ";" with
+    | [re] => (parseHex? re).map fun r => ⟨r, 0⟩
+    | [re, im] => match parseHex? re, parseHex? im with
+      | some r, some i => some ⟨r, i⟩
+      | _, _ => none
+    | _ => none
+
+def DB.update (db : DB) (name : String) (d : Def) : DB :=
+  db.map fun p => if p.1 == name then (name, d) else p
+
+/-- write `xs` (samples of caller type `cty`) to field `code` starting at
+    absolute sample `s`; returns the new database and the count written, or an
+    error code -/
+partial def putModel (db : DB) (fuel : Nat) (code : String) (s : Int) (cty : Ty) (xs : List Sample) :
+    Except Int (DB × Nat) :=
+  match fuel with
+  | 0 => .error (-10)
+  | fuel + 1 =>
+    match db.lookup code with
+    | none => .error (-3)
+    | some (.raw ty spf foff o bytes) =>
+      let off : Int := spf * foff
+      if s < off then .error (-8) else
+      let k := (s - off).toNat
+      let conv := xs.map fun x => (specConv cty ty x).getD ⟨0, 0⟩
+      let cur := decodeSamples o ty bytes
+      let new := GdModel.Codec.Flat.put (⟨0, 0⟩ : Sample) cur k conv
+      .ok (db.update code (.raw ty spf foff o (encodeSamples o ty new)), xs.length)
+    | some (.phase inp sh) => putModel db fuel inp (s + sh) cty xs
+    | some (.bit inp bn nb _) =>
+      -- read-modify-write of the input as UINT64 (src/putdata.c _GD_DoBitOut)
+      match u64View db recurseLimit inp with
+      | .error _ => .error (-12)
+      | .ok (_, off, cur) =>
+        let vals := xs.map fun x => ((specConv cty .u64 x).map (·.re)).getD 0
+        let mask := if nb ≥ 64 then 2 ^ 64 - 1 else 2 ^ nb - 1
+        let olds := (List.range vals.length).map fun (i : Nat) =>
+          let idx : Int := s + (i : Int) - (off : Int)
+          if idx < 0 then 0 else cur.getD idx.toNat 0
+        let news := (olds.zip vals).map fun (o, v) =>
+          ((o &&& ((2 ^ 64 - 1) - ((mask * 2 ^ bn) % 2 ^ 64))) ||| (((v &&& mask) * 2 ^ bn) % 2 ^ 64))
+        putModel db fuel inp s .u64 (news.map fun n => ⟨n, 0⟩)
+    | some (.lincom [(i0, m0, b0)]) =>
+      if cty != .f64 then .error (-100) else
+      let m := 1.0 / m0
+      let b := -b0 / m0
+      putModel db fuel i0 s .f64 (xs.map fun x => ⟨fBits (fOfBits x.re * m + b), 0⟩)
+    | some _ => .error (-100)
+
+def handlePut (db : DB) (args : List String) : DB × String :=
+  match args with
+  | [code, ff, fs, ty, vals] =>
+    match ff.toInt?, fs.toInt?, Ty.ofName? ty with
+    | some ff, some fs, some cty =>
+      match spfOf db recurseLimit code with
+      | .error .badCode => (db, "put n=0 e=-3")
+      | .error .recurse => (db, "put n=0 e=-10")
+      | .error (.unsupported w) => (db, "unsupported " ++ w)
+      | .ok spf =>
+        let s : Int := ff * spf + fs
+        match putModel db recurseLimit code s cty (parseSamples vals) with
+        | .ok (db', n) => (db', s!"put n={n} e=0")
+        | .error (-100) => (db, "unsupported put through this field type")
+        | .error e => (db, s!"put n=0 e={e}")
+    | _, _, _ => (db, "unsupported here")
+  | _ => (db, "bad-op")
+
+/-- `get` of a RAW field in any return type (the glue path of C06) -/
+def handleGetRaw (db : DB) (args : List String) : Option String :=
+  match args with
+  | [code, ff, fs, nf, ns, rty] =>
+    match db.lookup code, Ty.ofName? rty, ff.toInt?, fs.toInt?, nf.toNat?, ns.toNat? with
+    | some (.raw ty spf foff o bytes), some rt, some ff, some fs, some nf, some ns =>
+      if rty == "f64" && !ty.isComplex then none else
+      let s : Int := ff * spf + fs
+      let n := nf * spf + ns
+      if s < 0 then some "get n=0 e=-8 d=" else
+      let xs := decodeSamples o ty bytes
+      let off := spf * foff
+      let padS : Sample := if ty.comp.isFloat then ⟨(if ty.comp.width == 32 then 0x7fc00000 else 0x7ff8000000000000),
+        (if ty.isComplex then (if ty.comp.width == 32 then 0x7fc00000 else 0x7ff8000000000000) else 0)⟩ else ⟨0, 0⟩
+      let out := Impl.readRaw off padS xs s n
+      let conv := out.map fun x => showSample rt (specConv ty rt x)
+      some s!"get n={out.length} e=0 d={",".intercalate (conv.map fun c => c.replace " " ";")}"
+    | _, _, _, _, _, _ => none
+  | _ => none
 
 end GdModel.Driver
